@@ -53,4 +53,5 @@ Definition tables_pinned : run_tables :=
   {| t_libcst := [TryParse; TryTransform; IfNoChanges; IfNoDiff; IfNotDryWrite];
      t_regex := [IfNoChanges; IfNotDryWrite];
      t_xml := [TryTransform; IfNoChanges; IfNotDryWrite];
-     t_writers := [(SReqTxt, true); (SToml, true); (SSetupPy, true); (SSetupCfg, true)] |}.
+     t_writers := [(SReqTxt, true); (SToml, true); (SSetupPy, true); (SSetupCfg, true)];
+     t_diff := FromTrees |}.
